@@ -83,7 +83,7 @@ Theorem xml_start_item_lex : forall name decls attrs b cu tk tn ta rest o k,
                    (XSerModel.render_item (XSerModel.IStart name decls attrs) ++ rest) o k)
               (mkM b XData false 62 false None TStartTag [] [] [] [] rest o' k') /\
     otoks o' = TTag TStartTag (XSerModel.qual name) false tas false
-               :: rev (tag_errs_of (XRoundTrip.item_raws decls attrs)) ++ otoks o /\
+               :: rev (tag_errs_of (XSerModel.qual name) (XRoundTrip.item_raws decls attrs)) ++ otoks o /\
     XTreeModel.tokenize (XSerModel.item_rtoken (XSerModel.IStart name decls attrs)) =
     XTreeModel.TTag XTreeModel.StartTag (XTreeModel.process_qname (XSerModel.qual name)) (map conv_attr tas)
                     (XSerModel.qual name, XRoundTrip.item_raws decls attrs).
@@ -95,7 +95,7 @@ Theorem xml_end_item_lex : sk_resp sk = [] -> forall name b cu tk tn ta rest o k
     xml_steps (mkM b XData false cu false None tk tn ta [] []
                    (XSerModel.render_item (XSerModel.IEnd name) ++ rest) o k)
               (mkM b XData false 62 false None TEndTag [] [] [] [] rest o' k') /\
-    otoks o' = TTag TEndTag (XSerModel.qual name) false [] false :: otoks o /\
+    otoks o' = TTag TEndTag (XSerModel.qual name) false [] false :: rev (bad_errs (XSerModel.qual name)) ++ otoks o /\
     XTreeModel.tokenize (XSerModel.item_rtoken (XSerModel.IEnd name)) =
     XTreeModel.TTag XTreeModel.EndTag (XTreeModel.process_qname (XSerModel.qual name)) [] (XSerModel.qual name, []).
 Proof. intro NS. exact (end_item_lex xml_table xml_bodies_ok simd gen_ent c1 sk NS). Qed.
